@@ -30,6 +30,10 @@ def screen_check(pid, tier, seed, families, rules_note, need_paints=True, level=
     stats = {}
     samples = []
     per_family = []
+    only = os.environ.get("VERIF_FAMILIES")      # development aid: run the families whose name matches (the evidence says so)
+    if only:
+        import re as _re
+        families = [f for f in families if _re.search(only, f["name"])]
     for f in families:
         wd = vlib.workdir("%s_%s_gen" % (pid, f["name"]))
         model = f.get("model", "MC_Screen")
@@ -94,6 +98,8 @@ def screen_check(pid, tier, seed, families, rules_note, need_paints=True, level=
     coverage = dict(states=states, transitions=trans, traces_validated_against_impl=nh, records_validated=nrec,
                     samples=samples, clause_counts=stats, families=per_family,
                     rule=rules_note, exhaustive=all(f["mode"] == "bfs" for f in families))
+    if only:
+        coverage["family_filter"] = only
     assumptions = [
         "terminal semantics = spec/Term.tla (bound to the vt100 emulator by the Term conformance check)",
         "glyph column widths are input facts from the harness tokeniser (tok.rs)",
@@ -120,6 +126,9 @@ def c01(pid, tier, seed):
         fam("single_repeats", conf="single", W=4, H=8, D=4 if q else 5, BarOps=("println", "tick", "set_message", "finish_and_clear"), TextShapes=("same", "T"), MsgShapes=("a",), Fins=("AndLeave",)),
         fam("single_limited", conf="single", W=3, H=4, D=4 if q else 5, BarOps=("burst", "tick", "set_message", "println", "finish", "finish_and_clear", "drop"), Hz=20, DTs=(0, 50000),
             MsgShapes=("a", "W1", "nlA"), TextShapes=("T", "TW1")),
+        # ProgressBar::new(len): the default target (stderr, 20 Hz) with file descriptor 2 on a pseudo-terminal
+        fam("single_default_pty", W=6, H=5, D=3 if q else 4, BarOps=("tick", "set_message", "println", "finish", "finish_and_clear", "drop"),
+            MsgShapes=("a", "W1"), TextShapes=("T", "TW1"), Fins=("AndLeave", "AndClear"), Tgt="default_pty", DTs=(0, 60000), M0="id"),
         fam("single_pty", W=6, H=5, D=4 if q else 5, BarOps=("tick", "set_message", "println", "finish", "finish_and_clear", "drop"),
             MsgShapes=("a", "W1", "nlA"), TextShapes=("T", "TW1"), Fins=("AndLeave", "AndClear"), Tgt="pty", DTs=(0, 5000), M0="id"),
         # ProgressBar::set_draw_target on a standalone bar: hidden <-> terminal; an abandoned frame stays on the terminal as text
@@ -168,6 +177,9 @@ def c02(pid, tier, seed):
             Tpls=("M",), Fins=("AndLeave",), M0="id", shards=12),
         fam("multi_zombie_cover_wrapped", conf="multi", W=4, H=16, Multi=True, MaxBars=3, Pre=3, Once=True, Cover=True, D=9 if q else 11, BarOps=("finish", "drop", "tick", "mp_remove"), MpOps=(),
             Tpls=("M",), Fins=("AndLeave",), M0="idw", shards=12),
+        # MultiProgress::new(): stderr on a pseudo-terminal
+        fam("multi_default_pty", W=6, H=10, Multi=True, MaxBars=2, D=4, BarOps=("tick", "set_message", "println", "finish", "drop"),
+            MpOps=("mp_println", "mp_clear", "mp_is_hidden"), MsgShapes=("a",), TextShapes=("T",), Fins=("AndLeave",), Tgt="default_pty", DTs=(0, 60000), M0="id", shards=12),
         fam("multi_pty", W=6, H=10, Multi=True, MaxBars=2, D=4 if q else 5, BarOps=("tick", "set_message", "println", "finish", "drop", "mp_remove"),
             MpOps=("mp_println", "mp_clear"), MsgShapes=("a", "W1"), TextShapes=("T",), Fins=("AndLeave",), Tgt="pty", DTs=(0, 5000), M0="id", shards=12),
         fam("multi_limited", conf="multi", W=4, H=12, Multi=True, MaxBars=2, D=5 if q else 6, BarOps=("burst", "set_message", "finish", "drop", "tick"), MpOps=(),
@@ -292,6 +304,11 @@ def c06(pid, tier, seed):
         fam("hidden_then_shown", W=6, H=8, D=5 if q else 6, BarOps=("tick", "inc", "set_message", "println", "set_target", "finish", "reset"), MsgShapes=("a", "W1"), TextShapes=("T",),
             Tpls=("MnC",), Fins=("AndLeave",), Tgt="hidden"),
         fam("not_a_tty", W=10, H=5, D=4 if q else 5, BarOps=ops, MsgShapes=("a",), TextShapes=("T",), Tpls=("MnC",), Fins=("AndLeave", "WithMessage"), Tgt="pipe"),
+        # the process's own streams when they are not a terminal (file descriptors 1 and 2 replaced by a pipe in the replaying child): the target that
+        # ProgressBar::new / new_spinner / no_length pick themselves, ProgressDrawTarget::stderr() and stdout()
+        fam("std_default_pipe", W=10, H=5, D=3 if q else 4, BarOps=ops, MsgShapes=("a",), TextShapes=("T",), Tpls=("MnC",), Fins=("AndLeave", "AndClear"), Tgt="default_pipe"),
+        fam("std_stdout_pipe", W=10, H=5, D=3 if q else 4, BarOps=ops, MsgShapes=("a",), TextShapes=("T",), Tpls=("MnC",), Fins=("AndLeave",), Tgt="stdout_pipe"),
+        fam("std_stderr_hz_pipe", W=10, H=5, D=3 if q else 4, BarOps=ops, MsgShapes=("a",), TextShapes=("T",), Tpls=("MnC",), Fins=("AndLeave",), Tgt="stderr_pipe", Hz=5, DTs=(0, 300000)),
         fam("hidden_multi", W=10, H=5, Multi=True, MaxBars=2, D=4, BarOps=(tuple(o for o in ops if o not in ("set_tab_width", "set_style", "iter", "is_hidden", "abandon", "set_prefix")) if q else ops) + ("mp_remove", "readd"), MpOps=("mp_println", "mp_clear", "mp_suspend", "insert"),
             MsgShapes=("a",), TextShapes=("T",), Tpls=("MnC",), Fins=("AndLeave", "AndClear"), Tgt="hidden", M0="id", shards=12),
     ] + ([] if q else [
@@ -301,6 +318,9 @@ def c06(pid, tier, seed):
     ]) + [
         fam("not_a_tty_multi", W=10, H=5, Multi=True, MaxBars=2, D=4, BarOps=("tick", "set_message", "println", "finish", "drop"), MpOps=("mp_println", "mp_clear"),
             MsgShapes=("a",), TextShapes=("T",), Tpls=("MnC",), Fins=("AndLeave",), Tgt="pipe", M0="id", shards=12),
+        # MultiProgress::new() when stderr is not a terminal
+        fam("std_default_pipe_multi", W=10, H=5, Multi=True, MaxBars=2, D=4, BarOps=("tick", "inc", "set_message", "println", "finish", "finish_and_clear", "drop", "mp_remove"), MpOps=("mp_println", "mp_clear", "mp_suspend", "mp_is_hidden"),
+            MsgShapes=("a",), TextShapes=("T",), Tpls=("MnC",), Fins=("AndLeave",), Tgt="default_pipe", M0="id", shards=12),
         fam("removed_member", W=10, H=8, Multi=True, MaxBars=2, Pre=2, D=5 if q else 7, BarOps=("tick", "inc", "set_message", "println", "finish", "finish_and_clear", "drop", "mp_remove"),
             MpOps=(), MsgShapes=("a",), TextShapes=("T",), Tpls=("MnC",), Fins=("AndLeave",), M0="id", shards=12),
     ]
